@@ -1,5 +1,6 @@
 import Tmv.Drv.Core
 import Tmv.Model.CommitVerify
+import Tmv.Model.CommitDecode
 /-! Line-protocol driver for C07 (commit verification).
 
     vals v=<addr>/<key>/<power>,...                      -> total=<T> | panic-total
@@ -9,20 +10,33 @@ import Tmv.Model.CommitVerify
     trusting chain=<c> num=<uint64> den=<uint64>         -> verdict
 
 `vals` and `commit` lines may carry `via=proto` (and `vals` a `tvp=<int64>`): the Go side then passes
-the value through ToProto -> wire bytes (with `tvp` written into total_voting_power) -> FromProto
-before use. The stream only emits this for values that decode, and for the model decoding is the
-identity (a decoded set IS the set, whatever total the wire claimed), so the tokens are ignored here.
+the value through ToProto -> wire bytes (with `tvp` written into total_voting_power) -> FromProto,
+the model through `valSetFromProto` / `commitFromProto`; a value that does not decode answers
+`proto-error:<kind>` and leaves no set / commit. Further ops:
+
+    basic                      -> Commit.ValidateBasic of the current commit: ok | basic-error:<kind>
+    bid b=<hash>/<total>/<pshash>  -> valid=<bool> zero=<bool> complete=<bool>
+
+Timestamps are nanoseconds since the epoch; the token -9223372036854775808 stands for Go's zero
+time.Time (year 1), which does not fit int64 nanoseconds.
 
 `<sig>` says what the signature really is: `V~key~chain~type~h~r~hash~total~pshash~ts` = a genuine
-signature by key `key` over that canonical vote; `F~…` (bit-flipped), `J` (junk), `E` (empty),
-`S` (short) never verify. -/
+signature by key `key` over that canonical vote; `F~…` (bit-flipped), `J` (junk, 64 bytes), `E` (empty),
+`S` (short, 10 bytes), `L` (long, 65 bytes) never verify. -/
 namespace Tmv.Drv.C07
 open Tmv Tmv.CommitVerify
 
 /-- what a signature was really made over -/
-abbrev Sig := Option (Nat × SignBytes)
+structure Sig where
+  len : Nat                          -- byte length of the signature
+  what : Option (Nat × SignBytes)    -- the key and record it is a genuine signature of
 
-def sigOK (k : Nat) (sb : SignBytes) (s : Sig) : Bool := s == some (k, sb)
+def sigOK (k : Nat) (sb : SignBytes) (s : Sig) : Bool := s.what == some (k, sb)
+
+def sigLen (s : Sig) : Nat := s.len
+
+/-- timestamp token: the minimum int64 stands for Go's zero time -/
+def tsOf (i : Int) : Int := if i = minInt64 then zeroTime else i
 
 def int64? (s : String) : Option Int := do
   let i ← s.toInt?
@@ -54,7 +68,10 @@ def parseBid (s : String) : Option BlockID :=
   | _ => none
 
 def parseSig (s : String) : Option Sig :=
-  if s = "J" ∨ s = "E" ∨ s = "S" then some none
+  if s = "J" then some ⟨64, none⟩
+  else if s = "E" then some ⟨0, none⟩
+  else if s = "S" then some ⟨10, none⟩
+  else if s = "L" then some ⟨65, none⟩
   else
     match s.splitOn "~" with
     | [tag, key, chain, ty, h, r, bh, bt, bp, ts] => do
@@ -65,10 +82,10 @@ def parseSig (s : String) : Option Sig :=
       let b ← parseBid3 bh bt bp
       let ts ← int64? ts
       if !b.validBasic then none
-      else if tag = "F" then some none
+      else if tag = "F" then some ⟨64, none⟩
       else if tag = "V" then
-        some (some (k, { type := ty, height := h, round := r, blockID := canonBlockID b,
-                         ts := ts, chainID := chain? chain }))
+        some ⟨64, some (k, { type := ty, height := h, round := r, blockID := canonBlockID b,
+                             ts := tsOf ts, chainID := chain? chain })⟩
       else none
     | _ => none
 
@@ -80,7 +97,7 @@ def parseSlot (s : String) : Option (CommitSig Sig) :=
     let a ← ofHex a
     let ts ← int64? ts
     let sg ← parseSig sg
-    pure { flag := f, addr := a, ts := ts, sig := sg }
+    pure { flag := f, addr := a, ts := tsOf ts, sig := sg }
   | _ => none
 
 def parseVal (s : String) : Option Validator :=
@@ -108,6 +125,23 @@ def showRes : Res → String
   | .panicTotal => "panic-total"
   | .panicIndex => "panic-index"
 
+def showSigErr : SigErr → String
+  | .unknownFlag => "unknown-flag" | .absentAddr => "absent-address" | .absentTime => "absent-time"
+  | .absentSig => "absent-signature" | .addrSize => "address-size" | .sigMissing => "signature-missing"
+  | .sigTooBig => "signature-too-big"
+
+def showCommitErr : CommitErr → String
+  | .blockID => "blockid" | .sig e => s!"sig({showSigErr e})" | .negHeight => "negative-height"
+  | .negRound => "negative-round" | .nilBlock => "nil-block" | .noSigs => "no-signatures"
+
+def showValErr : ValErr → String
+  | .negPower => "negative-power" | .addrSize => "address-size"
+
+def showSetErr : SetErr → String
+  | .nilProposer => "nil-proposer" | .empty => "empty"
+  | .validator i e => s!"validator({i},{showValErr e})" | .proposer e => s!"proposer({showValErr e})"
+  | .panicTotal => "panic-total"
+
 structure St where
   vals : Option (List Validator) := none
   commit : Option (Commit Sig) := none
@@ -117,6 +151,17 @@ def step (st : St) (toks : List String) : St × String :=
   | "vals" :: rest =>
     match (kv rest "v").bind (fun s => (splitComma s).mapM parseVal) with
     | some vs =>
+      if kv rest "via" = some "proto" then
+        match (match kv rest "tvp" with | none => some 0 | some t => int64? t) with
+        | none => (st, "bad-op")
+        | some tvp =>
+          match valSetFromProto { validators := vs, proposer := vs.head?, total := tvp } with
+          | .error e => ({ st with vals := none }, "proto-error:" ++ showSetErr e)
+          | .ok dec => ({ st with vals := some dec },
+              match totalVotingPower dec with
+              | some t => s!"total={t}"
+              | none => "panic-total")
+      else
       ({ st with vals := some vs },
         match totalVotingPower vs with
         | some t => s!"total={t}"
@@ -126,8 +171,23 @@ def step (st : St) (toks : List String) : St × String :=
     match (kv rest "h").bind int64?, (kv rest "r").bind int32?, (kv rest "bid").bind parseBid,
           (kv rest "sigs").bind (fun s => (splitComma s).mapM parseSlot) with
     | some h, some r, some b, some sigs =>
-      ({ st with commit := some { height := h, round := r, blockID := b, sigs := sigs } }, "ok")
+      let c : Commit Sig := { height := h, round := r, blockID := b, sigs := sigs }
+      if kv rest "via" = some "proto" then
+        match commitFromProto sigLen c with
+        | .error e => ({ st with commit := none }, "proto-error:" ++ showCommitErr e)
+        | .ok dec => ({ st with commit := some dec }, "ok")
+      else ({ st with commit := some c }, "ok")
     | _, _, _, _ => (st, "bad-op")
+  | ["basic"] =>
+    match st.commit with
+    | some c => (st, match commitValidateBasic sigLen c with
+        | none => "ok"
+        | some e => "basic-error:" ++ showCommitErr e)
+    | none => (st, "bad-op")
+  | "bid" :: rest =>
+    match (kv rest "b").bind parseBid with
+    | some b => (st, s!"valid={b.validBasic} zero={b.isZero} complete={b.isComplete}")
+    | none => (st, "bad-op")
   | "full" :: rest =>
     match st.vals, st.commit, kv rest "chain", (kv rest "bid").bind parseBid, (kv rest "h").bind int64? with
     | some vs, some c, some ch, some b, some h =>
